@@ -249,7 +249,7 @@ class ReadCd(SCSICommand):
                 convert.decode_bits(d, cls._sc2_bits, r["subchannel"])
                 r["subchannel"]["data"] = d[:16]
                 d = d[16:]
-            if kwargs["scsb"] == 4:
+            if kwargs["scsb"] in (1, 4):
                 r["subchannel"] = {}
                 r["subchannel"]["data"] = d[:96]
                 d = d[96:]
